@@ -672,6 +672,11 @@ func (e *symEnv) eval(st *symState, x ast.Expr) Val {
 				return Val{B: fOrOf(a.B, b.B)}
 			}
 		case token.ADD, token.SUB:
+			if x.Op == token.SUB {
+				if v, ok := st.vars[fmt.Sprintf("$usub:%d", x.Pos())]; ok {
+					return v
+				}
+			}
 			a, b := e.eval(st, x.X), e.eval(st, x.Y)
 			if a.Lin != nil && b.Lin != nil {
 				if !a.Lin.isConst() && !b.Lin.isConst() {
@@ -696,6 +701,26 @@ func (e *symEnv) eval(st *symState, x ast.Expr) Val {
 			}
 		case token.LSS, token.LEQ, token.GTR, token.GEQ, token.EQL, token.NEQ:
 			a, b := e.eval(st, x.X), e.eval(st, x.Y)
+			if a.Lin != nil && b.Lin != nil && isWrapped(a.Lin) != isWrapped(b.Lin) {
+				// a wrapped-around unsigned value is larger than anything it is compared with
+				big := isWrapped(a.Lin)
+				switch x.Op {
+				case token.LSS, token.LEQ:
+					if big {
+						return Val{B: FFalse}
+					}
+					return Val{B: FTrue}
+				case token.GTR, token.GEQ:
+					if big {
+						return Val{B: FTrue}
+					}
+					return Val{B: FFalse}
+				case token.EQL:
+					return Val{B: FFalse}
+				case token.NEQ:
+					return Val{B: FTrue}
+				}
+			}
 			if a.Lin != nil && b.Lin != nil {
 				if e.unordered != nil {
 					for s := range a.Lin.C {
@@ -899,7 +924,123 @@ func (e *symEnv) assign(st *symState, lhs ast.Expr, v Val) {
 	st.vars[key] = v
 }
 
+// unsignedSubsIn lists the subtractions of unsigned type in a statement's own expressions
+// (innermost first): where the mathematical difference can be negative the value wraps around.
+func (e *symEnv) unsignedSubsIn(s ast.Stmt) []*ast.BinaryExpr {
+	var exprs []ast.Expr
+	switch x := s.(type) {
+	case *ast.ExprStmt:
+		exprs = append(exprs, x.X)
+	case *ast.AssignStmt:
+		exprs = append(exprs, x.Rhs...)
+	case *ast.DeclStmt:
+		if gd, ok := x.Decl.(*ast.GenDecl); ok {
+			for _, sp := range gd.Specs {
+				if vs, ok := sp.(*ast.ValueSpec); ok {
+					exprs = append(exprs, vs.Values...)
+				}
+			}
+		}
+	case *ast.ReturnStmt:
+		exprs = append(exprs, x.Results...)
+	case *ast.IfStmt:
+		if x.Init == nil {
+			exprs = append(exprs, x.Cond)
+		}
+	}
+	var out []*ast.BinaryExpr
+	for _, ex := range exprs {
+		ast.Inspect(ex, func(n ast.Node) bool {
+			if _, isLit := n.(*ast.FuncLit); isLit {
+				return false
+			}
+			if be, ok := n.(*ast.BinaryExpr); ok && be.Op == token.SUB {
+				if tv, ok := e.info.Types[be]; ok && tv.Value == nil && tv.Type != nil {
+					if bt, ok := tv.Type.Underlying().(*types.Basic); ok && bt.Info()&types.IsUnsigned != 0 {
+						out = append(out, be)
+					}
+				}
+			}
+			return true
+		})
+	}
+	for i, j := 0, len(out)-1; i < j; i, j = i+1, j-1 {
+		out[i], out[j] = out[j], out[i]
+	}
+	return out
+}
+
+// isWrapped: the linear form holds the stand-in for a wrapped-around unsigned value (larger than
+// every size and index the program can hold).
+func isWrapped(l *Lin) bool {
+	if l == nil {
+		return false
+	}
+	for s, k := range l.C {
+		if strings.HasPrefix(s, "wrap#") && k > 0 {
+			return true
+		}
+	}
+	return false
+}
+
 func (e *symEnv) exec(st *symState, s ast.Stmt) []*symState {
+	// unsigned subtraction: one state in which the difference is not negative, one in which it
+	// wraps around (only where the latter is possible at all)
+	if us := e.unsignedSubsIn(s); len(us) > 0 {
+		states := []*symState{st}
+		for _, be := range us {
+			key := fmt.Sprintf("$usub:%d", be.Pos())
+			var next []*symState
+			for _, cs := range states {
+				if _, done := cs.vars[key]; done {
+					next = append(next, cs)
+					continue
+				}
+				a, b := e.eval(cs, be.X), e.eval(cs, be.Y)
+				if a.Lin == nil || b.Lin == nil || isWrapped(a.Lin) || isWrapped(b.Lin) {
+					next = append(next, cs)
+					continue
+				}
+				full := append(append(Cube{}, e.base...), cs.cube...)
+				if neg, dec := satF(full, lt(a.Lin, b.Lin)); !neg && dec {
+					next = append(next, cs) // never negative here
+					continue
+				}
+				for side := 0; side < 2; side++ {
+					ns := cs.clone()
+					var cond *F
+					if side == 0 {
+						cond = le(b.Lin, a.Lin)
+					} else {
+						cond = lt(a.Lin, b.Lin)
+					}
+					cubes := dnf(cond)
+					if len(cubes) != 1 {
+						continue
+					}
+					ns.cube = append(ns.cube, cubes[0]...)
+					if ok, _ := feasible(append(append(Cube{}, e.base...), ns.cube...)); !ok {
+						continue
+					}
+					if side == 0 {
+						ns.vars[key] = Val{Lin: a.Lin.sub(b.Lin)}
+					} else {
+						ns.vars[key] = Val{Lin: linSym(fmt.Sprintf("wrap#%d", be.Pos()))}
+					}
+					next = append(next, ns)
+				}
+			}
+			states = next
+		}
+		if len(states) != 1 || states[0] != st {
+			var out []*symState
+			for _, cs := range states {
+				out = append(out, e.exec(cs, s)...)
+			}
+			return out
+		}
+	}
 	// the builtins min and max of two integers: one state per argument that can be the result
 	if mm := e.minMaxCallsIn(s); len(mm) > 0 {
 		states := []*symState{st}
